@@ -12,7 +12,7 @@
 From Coq Require Import List NArith ZArith Bool Arith.
 From Coq Require Strings.String.
 From PV Require Import Graph.OpFamily Graph.Tape Graph.Lazy Graph.Backward Graph.TapeLemmas Graph.LazyProofs
-  Graph.Example Fault.AllocModel Fault.AllocFail Fault.AllocExample Fault.GraphErr.
+  Graph.Example Fault.AllocModel Fault.AllocFail Fault.AllocRandom Fault.AllocExample Fault.GraphErr.
 From PV Require Base.Err Base.Scalar Shape.ShapeImpl Cow.Heap Cow.CowProofs Registry.ModelReg Registry.RegProofs
   Optim.OptModel Optim.OptInv Msgpack.Codec Msgpack.FileFormat Msgpack.LoadAtomic.
 Import ListNotations.
@@ -211,18 +211,75 @@ Theorem C10_alloc_failure_multi_output_random_refuted :
 Proof. exact alloc_failure_multi_output_random_refuted. Qed.
 Print Assumptions C10_alloc_failure_multi_output_random_refuted.
 
+
+(* Random sources included.  NO determinism assumption; instead what operator_impl.cc / device.cc
+   guarantee for the Random operators: at most one output (rand1, part of rinv), and - built into
+   the model - the draw happens only after the allocation succeeded.  rinv also says that a
+   half-assigned operator is a deterministic one whose held values are its recomputation; every
+   state reached without failures satisfies it (next theorem), and every forward call of any
+   outcome preserves it.  For EVERY schedule and failure position: nothing but value slots and
+   stream positions changed, the memo only grew, and the retry returns the value of the run
+   that never failed, ends with EXACTLY its environment e_ok (all stream positions), and with a
+   memo [sim]ilar to its memo: equal values wherever both hold one, and an operator whose slots
+   differ is deterministic and recomputable on both sides (the two C10_similar_memos theorems). *)
+Theorem C10_alloc_failure_recoverable_random {Op Sh V} (F : OpFamily Op Sh V) plan sigma
+  (g : @gstate Op Sh V) e k a g_f e_f k_f v g_ok e_ok :
+  rinv F (g_ops g) e ->
+  forwardA F plan sigma g e k a = (AErr, g_f, e_f, k_f) -> forward F g e a = Some (v, g_ok, e_ok) ->
+  sv (g_ops g_f) = sv (g_ops g) /\ g_blog g_f = g_blog g /\ e_pval e_f = e_pval e /\ e_pgrad e_f = e_pgrad e /\
+  mono (g_ops g) (g_ops g_f) /\ rinv F (g_ops g_f) e_f /\
+  exists g_r, forward F g_f e_f a = Some (v, g_r, e_ok) /\ sim F (g_ops g_r) (g_ops g_ok) e_ok /\
+    mono (g_ops g_f) (g_ops g_r) /\
+    (forall b s1 s2 x y, get_slot_ops (g_ops g_f) b = Some s1 -> get_slot_ops (g_ops g_ok) b = Some s2 ->
+       s_val s1 = Some x -> s_val s2 = Some y -> x = y).
+Proof. exact (alloc_failure_recoverable_random F plan sigma g e k a g_f e_f k_f v g_ok e_ok). Qed.
+Print Assumptions C10_alloc_failure_recoverable_random.
+
+Theorem C10_alloc_failures_recoverable_random {Op Sh V} (F : OpFamily Op Sh V) plan
+  (g : @gstate Op Sh V) e a g_f e_f v g_ok e_ok :
+  rinv F (g_ops g) e -> failed_calls F plan a g e g_f e_f -> forward F g e a = Some (v, g_ok, e_ok) ->
+  rinv F (g_ops g_f) e_f /\ mono (g_ops g) (g_ops g_f) /\ exists g_r, forward F g_f e_f a = Some (v, g_r, e_ok).
+Proof. exact (alloc_failures_recoverable_random F plan g e a g_f e_f v g_ok e_ok). Qed.
+Print Assumptions C10_alloc_failures_recoverable_random.
+
+(* every graph satisfying the graph engine's reachable invariant (Properties_C05) satisfies rinv,
+   for a family whose random sources have at most one output *)
+Theorem C10_alloc_random_invariant_reachable {Op Sh V} (F : OpFamily Op Sh V) (ops : list (@opinfo Op Sh V)) e :
+  (forall o, f_rand F o <> None -> f_retn F o <= 1) -> ginv F ops -> rinv F ops e.
+Proof. exact (rinv_of_ginv F ops e). Qed.
+Print Assumptions C10_alloc_random_invariant_reachable.
+
+Theorem C10_similar_memos_agree {Op Sh V} (F : OpFamily Op Sh V) (ops1 ops2 : list (@opinfo Op Sh V)) e :
+  sim F ops1 ops2 e -> forall b s1 s2 x y,
+  get_slot_ops ops1 b = Some s1 -> get_slot_ops ops2 b = Some s2 -> s_val s1 = Some x -> s_val s2 = Some y -> x = y.
+Proof. exact (sim_values F ops1 ops2 e). Qed.
+Print Assumptions C10_similar_memos_agree.
+
+(* every random node holds the same sample (or none) in two similar memos *)
+Theorem C10_similar_memos_same_samples {Op Sh V} (F : OpFamily Op Sh V) (ops1 ops2 : list (@opinfo Op Sh V)) e k oi1 oi2 :
+  sim F ops1 ops2 e -> nth_error ops1 k = Some oi1 -> nth_error ops2 k = Some oi2 ->
+  f_rand F (o_op oi1) <> None -> map s_val (o_rets oi1) = map s_val (o_rets oi2).
+Proof. exact (sim_random_same F ops1 ops2 e k oi1 oi2). Qed.
+Print Assumptions C10_similar_memos_same_samples.
+
 (* non-vacuity: (i) the graph x -> split -> s0 + s0 of Fault/AllocExample.v meets every
    hypothesis of C10_alloc_failure_recoverable with the third allocation failing (split's second
    output): Error, s0 valid, s1 not; the retry returns the never-failing value;
-   (ii) an add with a node of another graph is rejected and the world is unchanged. *)
+   (ii) an add with a node of another graph is rejected and the world is unchanged;
+   (iii) the graph r1, r2, r1 + r2, (r1 + r2) + r1 with two random sources meets the hypotheses of
+   C10_alloc_failure_recoverable_random with the third allocation failing (both samples drawn). *)
 Example C10_components_nonvacuous :
   (ainv EF (g_ops sp_g) ex_env /\ get_slot sp_g (2, 0) <> None /\ detval EF (g_ops sp_g) ex_env (2, 0) [2; 4]%Z /\
    sp_fail = (AErr, sp_gf, ex_env, 3) /\
    sp_vals sp_gf = [[Some [1; 2; 3; 4]%Z]; [Some [1; 2]%Z; None]; [None]; [None]]) /\
   (let w := run_all EF EV ex_w0 sp_cmds in
-   run_cmd EF EV w (CAdd 0 EAdd [nd 0 2 0; nd 1 0 0]) = Error /\ run EF EV w (CAdd 0 EAdd [nd 0 2 0; nd 1 0 0]) = w).
+   run_cmd EF EV w (CAdd 0 EAdd [nd 0 2 0; nd 1 0 0]) = Error /\ run EF EV w (CAdd 0 EAdd [nd 0 2 0; nd 1 0 0]) = w) /\
+  (rinv EF (g_ops rn_g) ex_env /\
+   (exists g_f e_f, forwardA EF plan1 (fail_at 2) rn_g ex_env 0 (3, 0) = (AErr, g_f, e_f, 3) /\
+      sp_vals g_f = [[Some [0; 1]%Z]; [Some [2; 3]%Z]; [None]; [None]] /\ e_pos e_f 0 = 4%N) /\
+   (exists g_ok e_ok, forward EF rn_g ex_env (3, 0) = Some ([2; 5]%Z, g_ok, e_ok) /\ e_pos e_ok 0 = 4%N)).
 Proof.
-  split.
+  split; [|split; [|exact alloc_failure_recoverable_random_nonvacuous]].
   - destruct alloc_failure_recoverable_nonvacuous as (A & B & C & D & _). split; [exact A|]. split; [exact B|]. split; [exact C|].
     split; [exact D|]. vm_compute. reflexivity.
   - vm_compute. split; reflexivity.
